@@ -29,9 +29,9 @@ def run(run):
     run.outside = ["n > 4", "m > 2", "custom user-defined starting algorithms"]
     run.rule = "one item per (configuration, dataset, flag); on every path one query per starting point"
     run.bounds["_bio_consert glue [S] (n, departures)"] = kinit
-    run.add_candidates(harness.pmap(bk.init_score_check, kinit))
+    run.pmap("bk.init_score_check", bk.init_score_check, kinit)
     items = sweep.make_items(run, CFGS, ["starts"], flags=(False, True) if run.thorough else (False,), light=heavy, heavy=heavy)
-    run.add_candidates(harness.pmap(sweep.run_item, items, chunksize=1))
+    run.pmap("sweep.run_item", sweep.run_item, items, chunksize=1)
     run.extra["work_items"] = len(items)
     run.extra["stubs"] = sweep.install()
 
